@@ -3,52 +3,67 @@ use std::io::{self, Seek, SeekFrom, Write};
 
 /// A sparse, position-only `Write + Seek`: it tracks the absolute stream position (a u64 that may
 /// be symbolic: the start offset and any gap the harness seeks over are `kani::any()` values) and
-/// remembers only the bytes that fall into two small windows whose absolute bases are set by the
-/// harness. Everything else written is dropped: it stands for payload. This is how the 4 GiB
-/// boundaries are reached without 4 GiB of data.
+/// keeps a log of the writes of 1..=8 bytes (every header field the crate writes is one such write)
+/// as (absolute position, length, big-endian value). Longer writes are payload and are dropped.
+/// Reading back a field is a search of the log by *position equality* -- no array is ever indexed
+/// with a symbolic index. This is how the 4 GiB boundaries are reached without 4 GiB of data.
+pub const LOG: usize = 80;
 pub struct Sparse {
     pub pos: u64,
     pub end: u64,
-    pub a_base: u64,
-    pub a: [u8; 64],
-    pub b_base: u64,
-    pub b: [u8; 32],
+    pub n: usize,
+    pub at: [u64; LOG],
+    pub len: [u8; LOG],
+    pub val: [u64; LOG],
     pub writes: u32,
 }
 
 impl Sparse {
     pub fn new(start: u64) -> Self {
-        Sparse { pos: start, end: start, a_base: start, a: [0; 64], b_base: u64::MAX, b: [0; 32], writes: 0 }
+        Sparse { pos: start, end: start, n: 0, at: [0; LOG], len: [0; LOG], val: [0; LOG], writes: 0 }
+    }
+    /// the value last written at exactly [abs, abs+len): None if the newest write overlapping that
+    /// range is not exactly that range (or there is none)
+    fn field(&self, abs: u64, len: u8) -> Option<u64> {
+        let mut i = LOG;
+        while i > 0 {
+            i -= 1;
+            if i < self.n {
+                let overlaps = abs < self.at[i] + self.len[i] as u64 && self.at[i] < abs + len as u64;
+                if overlaps {
+                    return if self.at[i] == abs && self.len[i] == len { Some(self.val[i]) } else { None };
+                }
+            }
+        }
+        None
     }
     pub fn get(&self, abs: u64) -> Option<u8> {
-        if abs >= self.a_base && abs - self.a_base < 64 {
-            Some(self.a[(abs - self.a_base) as usize])
-        } else if abs >= self.b_base && abs - self.b_base < 32 {
-            Some(self.b[(abs - self.b_base) as usize])
-        } else {
-            None
-        }
+        self.field(abs, 1).map(|v| v as u8)
     }
     pub fn get32(&self, abs: u64) -> Option<u32> {
-        Some(((self.get(abs)? as u32) << 24) | ((self.get(abs + 1)? as u32) << 16) | ((self.get(abs + 2)? as u32) << 8) | self.get(abs + 3)? as u32)
+        self.field(abs, 4).map(|v| v as u32)
     }
     pub fn get64(&self, abs: u64) -> Option<u64> {
-        Some(((self.get32(abs)? as u64) << 32) | self.get32(abs + 4)? as u64)
+        self.field(abs, 8)
     }
 }
 
 impl Write for Sparse {
     fn write(&mut self, buf: &[u8]) -> io::Result<usize> {
         self.writes += 1;
-        let mut i = 0;
-        while i < buf.len() {
-            let abs = self.pos + i as u64;
-            if abs >= self.a_base && abs - self.a_base < 64 {
-                self.a[(abs - self.a_base) as usize] = buf[i];
-            } else if abs >= self.b_base && abs - self.b_base < 32 {
-                self.b[(abs - self.b_base) as usize] = buf[i];
+        if buf.len() >= 1 && buf.len() <= 8 && self.n < LOG {
+            let mut v: u64 = 0;
+            let mut i = 0;
+            while i < 8 {
+                if i < buf.len() {
+                    v = (v << 8) | buf[i] as u64;
+                }
+                i += 1;
             }
-            i += 1;
+            self.at[self.n] = self.pos;
+            self.len[self.n] = buf.len() as u8;
+            self.val[self.n] = v;
+            self.n += 1;
         }
         self.pos += buf.len() as u64;
         if self.pos > self.end {
@@ -78,5 +93,89 @@ impl Seek for Sparse {
     }
     fn stream_position(&mut self) -> io::Result<u64> {
         Ok(self.pos)
+    }
+}
+
+// ---------------------------------------------------------------- C10: faults on the write side
+use std::io::Cursor;
+
+#[derive(Clone, Copy, PartialEq, Eq)]
+pub enum Fault {
+    Error,
+    ZeroWrite,
+}
+
+/// The k-th stream call (write / seek / flush, counted together from 0) fails: with an I/O error, or
+/// -- for a write -- by accepting zero bytes.
+pub struct FailW<'a> {
+    pub inner: Cursor<&'a mut [u8]>,
+    pub k: u32,
+    pub calls: u32,
+    pub fault: Fault,
+    pub fired: bool,
+}
+pub fn fail_w(b: &mut [u8], k: u32, fault: Fault) -> FailW<'_> {
+    FailW { inner: Cursor::new(b), k, calls: 0, fault, fired: false }
+}
+impl<'a> Write for FailW<'a> {
+    fn write(&mut self, buf: &[u8]) -> io::Result<usize> {
+        let n = self.calls;
+        self.calls += 1;
+        if n == self.k && !buf.is_empty() {
+            self.fired = true;
+            return match self.fault {
+                Fault::Error => Err(io::Error::from(io::ErrorKind::Other)),
+                Fault::ZeroWrite => Ok(0),
+            };
+        }
+        self.inner.write(buf)
+    }
+    fn flush(&mut self) -> io::Result<()> {
+        Ok(())
+    }
+}
+impl<'a> Seek for FailW<'a> {
+    fn seek(&mut self, pos: SeekFrom) -> io::Result<u64> {
+        let n = self.calls;
+        self.calls += 1;
+        if n == self.k && self.fault == Fault::Error {
+            self.fired = true;
+            return Err(io::Error::from(io::ErrorKind::Other));
+        }
+        self.inner.seek(pos)
+    }
+    fn stream_position(&mut self) -> io::Result<u64> {
+        Ok(self.inner.position())
+    }
+}
+
+/// A writer that accepts at most `c` bytes per `write` call and reports one interrupted call;
+/// `write_all` is not overridden.
+pub struct ChunkedW<'a> {
+    pub inner: Cursor<&'a mut [u8]>,
+    pub c: usize,
+    pub interrupt_at: u32,
+    pub calls: u32,
+}
+pub fn chunked_w(b: &mut [u8], c: usize, interrupt_at: u32) -> ChunkedW<'_> {
+    ChunkedW { inner: Cursor::new(b), c, interrupt_at, calls: 0 }
+}
+impl<'a> Write for ChunkedW<'a> {
+    fn write(&mut self, buf: &[u8]) -> io::Result<usize> {
+        let n = self.calls;
+        self.calls += 1;
+        if n == self.interrupt_at {
+            return Err(io::Error::from(io::ErrorKind::Interrupted));
+        }
+        let m = if buf.len() > self.c { self.c } else { buf.len() };
+        self.inner.write(&buf[..m])
+    }
+    fn flush(&mut self) -> io::Result<()> {
+        Ok(())
+    }
+}
+impl<'a> Seek for ChunkedW<'a> {
+    fn seek(&mut self, pos: SeekFrom) -> io::Result<u64> {
+        self.inner.seek(pos)
     }
 }
